@@ -826,12 +826,35 @@ func wireIntegerSinks(c *core.Ctx, d *decoderSet, ruleAlloc, ruleLoop string, ne
 				if !ok || bi.Name() != "len" {
 					return false
 				}
-				src, idx := core.CallResult(core.Canon(cl.Call.Args[0]))
-				if src == nil || idx != 0 {
-					return false
+				isReadResult := func(v ssa.Value) bool {
+					src, idx := core.CallResult(core.Canon(v))
+					if src == nil || idx != 0 {
+						return false
+					}
+					cc := src.Common()
+					return cc.IsInvoke() && cc.Method.Name() == "Read" && len(cc.Args) == 1
 				}
-				cc := src.Common()
-				return cc.IsInvoke() && cc.Method.Name() == "Read" && len(cc.Args) == 1
+				// the test moved into a predicate helper (isEmpty(data)): the parameter stands
+				// for what every call site passes
+				if p, isP := core.Canon(cl.Call.Args[0]).(*ssa.Parameter); isP && p.Parent() != nil && isPrivateHelper(c, p.Parent()) {
+					sites, _ := c.CallSites()
+					pj := -1
+					for j, fp := range p.Parent().Params {
+						if fp == p {
+							pj = j
+						}
+					}
+					if pj < 0 || len(sites[p.Parent()]) == 0 {
+						return false
+					}
+					for _, site := range sites[p.Parent()] {
+						if pj >= len(site.Common().Args) || !isReadResult(site.Common().Args[pj]) {
+							return false
+						}
+					}
+					return true
+				}
+				return isReadResult(cl.Call.Args[0])
 			}
 			nonEmpty := core.CutEstablishing(core.NonZero(isReadLen))
 			// body entry: the successor from which the header is reachable again
